@@ -1,8 +1,8 @@
 """E5 -- algebraic canonicalisation of terms (value numbering modulo + - * / by constants and commutativity).
 
-``lin(t)``   -> (const, {atom: coef}) linear form over opaque atoms; products / quotients of non-constants
-               become atoms ('mul', sorted factors) / ('div', num, den) over canonicalised operands.
-``canon(t)`` -> a canonical term: linear sub-terms replaced by ('lin', const, ((atom, coef)..)); arguments of
+``lin(t)``   -> {monomial: coef}: polynomial normal form over opaque atoms, monomial = (numerator atoms,
+               denominator atoms); products distribute over sums, quotients by a single monomial invert it.
+``canon(t)`` -> a canonical term: arithmetic sub-terms replaced by ('poly', ((monomial, coef)..)); arguments of
                commutative operators sorted; max/min flattened, sorted, de-duplicated; comparisons kept.
 NaN is ignored (stated assumption): a - a == 0, x * 1 == x.
 """
@@ -30,54 +30,82 @@ def _num(v):
     return None
 
 
-def lin(t, extra_comm=()) -> Tuple[Fraction, Dict[tuple, Fraction]]:
+ONE = ((), ())  # the empty monomial
+
+
+def _mono_mul(a, b):
+    nums = list(a[0]) + list(b[0])
+    dens = list(a[1]) + list(b[1])
+    # cancel common atoms
+    for x in list(nums):
+        if x in dens:
+            nums.remove(x)
+            dens.remove(x)
+    return (tuple(sorted(nums, key=repr)), tuple(sorted(dens, key=repr)))
+
+
+def lin(t, extra_comm=()) -> Dict[tuple, Fraction]:
+    """Polynomial normal form: {monomial: coefficient}; monomial = (numerator atoms, denominator atoms)."""
     k = t[0]
     if k == "const":
         n = _num(t[1])
         if n is not None:
-            return n, {}
-        return Fraction(0), {t: Fraction(1)}
+            return {ONE: n} if n != 0 else {}
+        return {((t,), ()): Fraction(1)}
     if k == "neg":
-        c, m = lin(t[1], extra_comm)
-        return -c, {a: -v for a, v in m.items()}
+        return {m: -v for m, v in lin(t[1], extra_comm).items()}
     if k == "bin":
         op = t[1]
         if op in ("+", "-"):
-            c1, m1 = lin(t[2], extra_comm)
-            c2, m2 = lin(t[3], extra_comm)
+            a, b = lin(t[2], extra_comm), lin(t[3], extra_comm)
             s = 1 if op == "+" else -1
-            out = dict(m1)
-            for a, v in m2.items():
-                out[a] = out.get(a, Fraction(0)) + s * v
-            return c1 + s * c2, {a: v for a, v in out.items() if v != 0}
+            out = dict(a)
+            for m, v in b.items():
+                out[m] = out.get(m, Fraction(0)) + s * v
+            return {m: v for m, v in out.items() if v != 0}
         if op == "*":
-            c1, m1 = lin(t[2], extra_comm)
-            c2, m2 = lin(t[3], extra_comm)
-            if not m1:
-                return c1 * c2, {a: v * c1 for a, v in m2.items() if v * c1 != 0}
-            if not m2:
-                return c1 * c2, {a: v * c2 for a, v in m1.items() if v * c2 != 0}
-            f = tuple(sorted([canon(t[2], extra_comm), canon(t[3], extra_comm)], key=repr))
-            return Fraction(0), {("mul", f): Fraction(1)}
+            a, b = lin(t[2], extra_comm), lin(t[3], extra_comm)
+            if len(a) * len(b) > 64:
+                return {((("bin", op, canon(t[2], extra_comm), canon(t[3], extra_comm)),), ()): Fraction(1)}
+            out: Dict[tuple, Fraction] = {}
+            for m1, v1 in a.items():
+                for m2, v2 in b.items():
+                    m = _mono_mul(m1, m2)
+                    out[m] = out.get(m, Fraction(0)) + v1 * v2
+            return {m: v for m, v in out.items() if v != 0}
         if op == "/":
-            c2, m2 = lin(t[3], extra_comm)
-            if not m2 and c2 != 0:
-                c1, m1 = lin(t[2], extra_comm)
-                return c1 / c2, {a: v / c2 for a, v in m1.items()}
-            return Fraction(0), {("div", canon(t[2], extra_comm), canon(t[3], extra_comm)): Fraction(1)}
-        return Fraction(0), {("bin", op, canon(t[2], extra_comm), canon(t[3], extra_comm)): Fraction(1)}
+            a, b = lin(t[2], extra_comm), lin(t[3], extra_comm)
+            if len(b) == 1:
+                (mb, vb), = b.items()
+                inv = (mb[1], mb[0])
+                out = {}
+                for m1, v1 in a.items():
+                    m = _mono_mul(m1, inv)
+                    out[m] = out.get(m, Fraction(0)) + v1 / vb
+                return {m: v for m, v in out.items() if v != 0}
+            if not b:
+                return {((("bin", op, canon(t[2], extra_comm), ("num", Fraction(0))),), ()): Fraction(1)}
+            den = pack(b)
+            out = {}
+            for m1, v1 in a.items():
+                m = _mono_mul(m1, ((), (den,)))
+                out[m] = out.get(m, Fraction(0)) + v1
+            return out
+        return {((("bin", op, canon(t[2], extra_comm), canon(t[3], extra_comm)),), ()): Fraction(1)}
     a = canon_nonlin(t, extra_comm)
-    return Fraction(0), {a: Fraction(1)}
+    return {((a,), ()): Fraction(1)}
 
 
-def pack(c: Fraction, m: Dict[tuple, Fraction]):
-    if not m:
-        return ("num", c)
-    if c == 0 and len(m) == 1:
-        (a, v), = m.items()
-        if v == 1:
-            return a
-    return ("lin", c, tuple(sorted(m.items(), key=lambda kv: repr(kv[0]))))
+def pack(p: Dict[tuple, Fraction]):
+    if not p:
+        return ("num", Fraction(0))
+    if len(p) == 1:
+        (m, v), = p.items()
+        if m == ONE:
+            return ("num", v)
+        if v == 1 and len(m[0]) == 1 and not m[1]:
+            return m[0][0]
+    return ("poly", tuple(sorted(p.items(), key=lambda kv: repr(kv[0]))))
 
 
 def canon(t, extra_comm=()):
@@ -88,7 +116,7 @@ def canon(t, extra_comm=()):
     if t[0] in ("bin", "neg") or (t[0] == "const" and _num(t[1]) is not None):
         if t[0] == "bin" and t[1] not in ("+", "-", "*", "/"):
             return ("bin", t[1], canon(t[2], extra_comm), canon(t[3], extra_comm))
-        return pack(*lin(t, extra_comm))
+        return pack(lin(t, extra_comm))
     return canon_nonlin(t, extra_comm)
 
 
